@@ -219,6 +219,10 @@ func c02Descriptions() []string {
 		"Ünïcödé synopsis ✓\nzwöte Zeile",
 		"Synopsis\nDepends: looks-like-a-field\n indented continuation",
 		"  padded synopsis  \n  padded body  ",
+		"Synopsis\n   \nafter a line of blanks",
+		"Synopsis\n\t\nafter a line holding a tab",
+		"Synopsis\r\nbody with CRLF line ends\r\n\r\nlast\r\n",
+		"Synopsis  with   runs of blanks\tand a tab\u00a0and a no-break space",
 	}
 }
 
@@ -994,7 +998,7 @@ func judgeChangelog(f string, c model.MetaCfg, pkg *pkgread.Pkg, viol func(sig, 
 			viol("meta:extra-changelog-name:deb", "changelog entries are not headed by the package name %q: %q", c.Name, trunc(string(txt), 400))
 			return
 		}
-		for _, n := range append(notes, "1.1.0-1", "1.0.0-1", "0.9.0", "Jane Roe <jane@example.com>") {
+		for _, n := range append(notes, "1.1.0-1", "1.0.0-1", "0.9.0", "0.8.0", "Jane Roe <jane@example.com>") {
 			if !strings.Contains(string(txt), n) {
 				viol("meta:extra-changelog:deb", "changelog lacks %q: %q", n, trunc(string(txt), 400))
 				return
@@ -1009,14 +1013,15 @@ func judgeChangelog(f string, c model.MetaCfg, pkg *pkgread.Pkg, viol func(sig, 
 			}
 			return
 		}
-		wantTimes := []int64{time.Date(2009, 12, 8, 22, 0, 0, 0, time.UTC).Unix(), time.Date(2009, 11, 10, 23, 0, 0, 0, time.UTC).Unix(), time.Date(2009, 10, 1, 10, 0, 0, 0, time.UTC).Unix()}
-		if len(times) != 3 || times[0] != wantTimes[0] || times[1] != wantTimes[1] || times[2] != wantTimes[2] {
+		wantTimes := []int64{time.Date(2009, 12, 8, 22, 0, 0, 0, time.UTC).Unix(), time.Date(2009, 11, 10, 23, 0, 0, 0, time.UTC).Unix(), time.Date(2009, 10, 1, 10, 0, 0, 0, time.UTC).Unix(), time.Date(2009, 9, 1, 9, 0, 0, 0, time.UTC).Unix()}
+		// every configured entry, also one without notes
+		if len(times) != 4 || times[0] != wantTimes[0] || times[1] != wantTimes[1] || times[2] != wantTimes[2] || times[3] != wantTimes[3] {
 			viol("meta:extra-changelog:rpm", "CHANGELOGTIME %v, configured entry dates %v", times, wantTimes)
 		}
-		if len(titles) != 3 || !strings.Contains(titles[0], "1.1.0-1") || !strings.Contains(titles[1], "1.0.0-1") || !strings.Contains(titles[0], "Jane Roe") || !strings.Contains(titles[2], "0.9.0") {
+		if len(titles) != 4 || !strings.Contains(titles[0], "1.1.0-1") || !strings.Contains(titles[1], "1.0.0-1") || !strings.Contains(titles[0], "Jane Roe") || !strings.Contains(titles[2], "0.9.0") || !strings.Contains(titles[3], "0.8.0") {
 			viol("meta:extra-changelog:rpm", "CHANGELOGNAME %q does not name the configured entries", titles)
 		}
-		if len(titles) == 3 && strings.TrimSpace(strings.TrimSuffix(strings.TrimSpace(titles[2]), "0.9.0")) != "-" {
+		if len(titles) == 4 && strings.TrimSpace(strings.TrimSuffix(strings.TrimSpace(titles[2]), "0.9.0")) != "-" {
 			viol("meta:extra-changelog-packager:rpm", "the third changelog entry has no packager configured, CHANGELOGNAME says %q", titles[2])
 		}
 		all := strings.Join(texts, "\n")
@@ -1025,7 +1030,10 @@ func judgeChangelog(f string, c model.MetaCfg, pkg *pkgread.Pkg, viol func(sig, 
 				viol("meta:extra-changelog:rpm", "CHANGELOGTEXT lacks %q: %q", n, all)
 			}
 		}
-		if len(texts) == 3 && (strings.Contains(texts[0], "first release") || strings.Contains(texts[1], "second release")) {
+		if len(texts) != 4 {
+			viol("meta:extra-changelog:rpm", "CHANGELOGTEXT has %d entries, the changelog 4 (one of them without notes)", len(texts))
+		}
+		if len(texts) == 4 && (strings.Contains(texts[0], "first release") || strings.Contains(texts[1], "second release")) {
 			viol("meta:extra-changelog:rpm", "CHANGELOGTEXT entries are attached to the wrong versions: %q", texts)
 		}
 	}
